@@ -150,6 +150,10 @@ def run(ctx):
 def facts(ctx, alg, kind, value, sk):
     """Signing input / R||S / alphabet facts on a token joserfc produced."""
     if kind in ("compact", "c7797"):
+        if value.count(b".") != 2:
+            ctx.report(f"a produced compact token has {value.count(b'.') + 1} period-separated parts instead of 3",
+                       {"alg": alg, "kind": kind, "value": value.decode("latin-1")}, f"facts:segments:{kind}")
+            return
         h, p, s = value.split(b".")
         segs = [h, s] + ([p] if kind == "compact" else [])
     else:
